@@ -77,13 +77,20 @@ class Check(PropertyCheck):
         v, n1 = self.roundtrip(plains, [1, 9] if quick else list(range(1, 10)), [False, True])
         big = enclib.big_plains(self.rng, quick) + enclib.boundary_plains(self.rng, 1, 24 if quick else 200)
         v2, n2 = self.roundtrip(big, [1] if quick else [1, 2, 9], [False, True])
-        self.notes.append("process-level round trips: %d small, %d large" % (n1, n2))
-        return v + v2
+        v3, n3 = ([], 0) if quick else self.roundtrip([enclib.maxgroups_plain()], [9], [False, True])
+        self.notes.append("process-level round trips: %d small, %d large, %d with the maximal number (18001) of coding groups" % (n1, n2, n3))
+        return v + v2 + v3
 
     def search(self):
         self.rng = vlib.SplitMix(self.seed + 77)
         plains = [enclib.gen_plain(self.rng, 5000) for _ in range(300)]
         v, n = self.roundtrip(plains, [1, 5, 9], [False, True])
+        if not v:
+            # a level-9 block with 900001 symbols = 18001 coding groups (the largest selector count the format allows)
+            v, n = self.roundtrip([enclib.maxgroups_plain()], [9], [False])
+            for x in v:
+                x.payload["generator"] = "enclib.maxgroups_plain()"
+                x.payload["input_hex"] = x.payload["input_hex"][:200]
         return v
 
     def replay(self, path):
@@ -92,7 +99,7 @@ class Check(PropertyCheck):
         if "input_hex" not in p:
             print(json.dumps(p.get("broken"), indent=1)[:3000])
             return 1
-        d = bytes.fromhex(p["input_hex"])
+        d = enclib.maxgroups_plain() if p.get("generator") == "enclib.maxgroups_plain()" else bytes.fromhex(p["input_hex"])
         v, n = self.roundtrip([d], [p.get("level", 1)], [p.get("sequential", False)])
         print("violations:", [x.summary for x in v])
         return 1 if v else 0
